@@ -101,6 +101,47 @@ def r071(an, rep, enc: FunctionInfo, cdec: FunctionInfo, defs):
     for k, read, n in dtags:
         ok = any(k in s for s in etags)
         rep.add("R07.1", f"decoder key {k!r}::encoder", ok, loc(cdec.module, n), "the encoder emits this tag" if ok else f"decoder tests key {k!r}, which the encoder never emits", nontrivial=False)
+    # ---- the complex arm of the decoder rebuilds the value with complex(real part, imaginary part)
+    for k, read, n in dtags:
+        if k in ("real", "imag") or {"real", "imag"} <= read:
+            rets = returns_of(n.body)
+            okc = False
+            why = "no return"
+            if rets:
+                rv = rets[0].value
+                if isinstance(rv, ast.Call) and isinstance(rv.func, ast.Name) and rv.func.id == "complex" and len(rv.args) == 2:
+                    keys = []
+                    for a in rv.args:
+                        ks = [s.slice.value for s in ast.walk(a) if isinstance(s, ast.Subscript) and isinstance(s.slice, ast.Constant)]
+                        keys.append(ks[0] if len(ks) == 1 else None)
+                    dec_called = all(any(isinstance(c, ast.Call) and isinstance(c.func, ast.Name) and c.func.id == cdec.name for c in ast.walk(a)) for a in rv.args)
+                    okc = keys == ["real", "imag"] and dec_called
+                    why = f"complex({keys[0]}, {keys[1]})" + ("" if dec_called else " without decoding the parts (tagged inf/nan parts stay dicts)")
+                else:
+                    why = f"`{norm_src(rv)}`"
+            rep.add("R07.1", f"{cdec.qual}::complex is rebuilt as complex(real, imag)", okc, loc(cdec.module, n),
+                    "complex(decoded real, decoded imag)" if okc else
+                    f"the complex arm returns {why}: only the two-argument constructor reproduces every component exactly (arithmetic such as real + imag*1j turns -0.0 into 0.0 and "
+                    f"an infinite imaginary part into a NaN real part; swapped keys exchange the parts)")
+    # ---- decoding must not depend on the order of the members of a JSON object
+    it_ord, _ = an.interp("from_json")
+    for g in an.closure("from_json"):
+        for c in ast.walk(g.node):
+            order_dep = None
+            if isinstance(c, ast.Call) and isinstance(c.func, ast.Name) and c.func.id == "next" and c.args and isinstance(c.args[0], ast.Call) \
+                    and isinstance(c.args[0].func, ast.Name) and c.args[0].func.id == "iter" and c.args[0].args:
+                order_dep = c.args[0].args[0]
+            if isinstance(c, ast.Subscript) and isinstance(c.slice, ast.Constant) and isinstance(c.slice.value, int) and isinstance(c.value, ast.Call) \
+                    and isinstance(c.value.func, ast.Name) and c.value.func.id in ("list", "tuple") and c.value.args:
+                order_dep = c.value.args[0]
+            if isinstance(c, ast.Call) and isinstance(c.func, ast.Attribute) and c.func.attr == "popitem":
+                order_dep = c.func.value
+            if order_dep is not None:
+                v = it_ord.value_at(order_dep)
+                if any(a[0] == "src" for a in v) or not v:
+                    rep.add("R07.1", f"{g.qual}::{norm_src(c)} does not depend on member order", False, loc(g.module, c),
+                            f"`{norm_src(c)}` takes the first member of a JSON object: the members of an object are unordered, a document re-serialised with sorted keys (or by another "
+                            f"JSON library) is decoded differently or rejected")
     # ---- string enumerations of the float and ellipsis tags
     for tag, prop in (("float", "float"), ("type", "type")):
         enc_vals: Set[str] = set()
@@ -135,6 +176,8 @@ def r071(an, rep, enc: FunctionInfo, cdec: FunctionInfo, defs):
         if len(disc) >= 4:
             argdec = (f, disc)
     if argdec is None:
+        if any(o.status == "violated" and "member order" in o.key for o in rep.obs.values()) if hasattr(rep, "obs") else False:
+            return
         raise AnalysisError("JSON operand decoder (chain of `\"key\" in value` tests returning constructors) not found")
     f, disc = argdec
     built = {c for _, c, _ in disc}
@@ -272,6 +315,10 @@ def r072(an, rep, enc, cdec, defs):
             if f.name in req and f.has_default:
                 rep.add("R07.2", key + "::required", False, w, f"schema requires {f.name} but the encoder hides it when it equals its default")
             node = props.get(f.name)
+            if f.name not in props and sdef.get("additionalProperties") is False:
+                rep.add("R07.2", key + "::listed in a closed object", False, w,
+                        f"the schema definition of {ci.name} has additionalProperties: false but does not list {f.name}: every document in which {f.name} is not at its default "
+                        f"(e.g. code compiled under `from __future__ import annotations` for future_annotations) fails validation")
             shapes = shapes_of(tg, ft)
             d = field_default(f)
             if f.has_default and d is None:
@@ -436,6 +483,20 @@ def r073(an, rep, enc: FunctionInfo):
                     f"`{norm_src(ifs_[0].test)}` is false for {[ascii(w) for w in missed]}, strings that cannot be encoded as UTF-8 (they contain surrogate code points): they are emitted as plain "
                     f"strings, a JSON serialise/parse cycle merges a surrogate pair into one character or fails" if missed
                     else f"`{norm_src(ifs_[0].test)}` holds for every witness string containing a surrogate code point")
+    carm = next(((n, b, node) for n, b, node in arms if "complex" in n), None)
+    if carm is not None:
+        rets = [r for r in returns_of(carm[1]) if isinstance(r.value, ast.Dict)]
+        okc = bool(rets)
+        raw = []
+        for r in rets:
+            for k, v in zip(r.value.keys, r.value.values):
+                if not (isinstance(v, ast.Call) and isinstance(v.func, ast.Name) and v.func.id == enc.name and len(v.args) == 1
+                        and isinstance(v.args[0], ast.Attribute) and isinstance(k, ast.Constant) and v.args[0].attr == k.value):
+                    raw.append((k, v))
+        rep.add("R07.3", f"{enc.qual}::complex parts are encoded through the float arm", okc and not raw, loc(enc.module, carm[2]),
+                f"the complex arm stores `{norm_src(raw[0][1])}` under {norm_src(raw[0][0])}: the part is not passed through {enc.name} (or not the part its key names), so an infinite / NaN "
+                f"component reaches the document as a raw float (Infinity / NaN tokens) or the parts are swapped" if raw or not okc
+                else "each of real / imag is the encoder applied to the component of the same name")
     # bool: must reach the int arm (or an own arm) before any arm tagging it
     first = None
     for names, body, node in arms:
